@@ -14,7 +14,7 @@ def programs(seed, n, nops):
     out = []
     for i in range(n):
         mode = ["plain", "plain", "sw", "occ"][i % 4]
-        g = Gen(seed * 100003 + i, mode=mode, nks=1 + i % 3,
+        g = Gen(seed * 100003 + i, mode=mode, nks=1 + i % 3, sealing=(2 if i >= n - max(8, n // 20) else 0),
                 weights=dict(reopen=0, snap=0, it=0, tx=0, txop=0, gc=0.5, ks=0.3, delks=0, ingest=2, clear=1, major=1))
         out.append(g.program(nops))
     return out
